@@ -1012,7 +1012,7 @@ class MatlabWrapper(CheckMixin, FormatMixin):
 
         if serialize and self.use_boost_serialization:
             method_text += WrapperTemplate.matlab_deserialize.format(
-                class_name=namespace_name + '.' + instantiated_class.name,
+                class_name=self._format_class_name(instantiated_class, '.'),
                 wrapper=self._wrapper_name(),
                 id=self._update_wrapper_id(
                     (namespace_name, instantiated_class, 'string_deserialize',
@@ -1517,7 +1517,9 @@ class MatlabWrapper(CheckMixin, FormatMixin):
                     body += self.wrap_collector_function_deserialize(
                         collector_func[1].name,
                         full_name=collector_func[1].to_cpp(),
-                        namespace=collector_func[0])
+                        namespace=collector_func[0],
+                        matlab_name=self._format_class_name(
+                            collector_func[1], '.'))
 
             elif is_method or is_static_method:
                 method_name = ''
@@ -1844,12 +1846,16 @@ class MatlabWrapper(CheckMixin, FormatMixin):
     def wrap_collector_function_deserialize(self,
                                             class_name,
                                             full_name='',
-                                            namespace=''):
+                                            namespace='',
+                                            matlab_name=''):
         """
         Wrap the deserizalize collector function.
         """
         return WrapperTemplate.collector_function_deserialize.format(
-            class_name=class_name, full_name=full_name, namespace=namespace)
+            class_name=class_name,
+            full_name=full_name,
+            namespace=namespace,
+            matlab_name=matlab_name)
 
     def generate_content(self, cc_content, path):
         """
